@@ -31,6 +31,13 @@ def unicode_names(text):
     return re.sub(r'\b([A-Za-z])x(\d+)\b', r'\1éx\2', text)
 
 
+def compat_names(text):
+    """Layout variant: identifiers written with a compatibility character (Kx0 -> Kﬁx0, U+FB01).
+    Python treats `Kﬁx0` and `Kfix0` as the same identifier (PEP 3131, NFKC); the TEXT of the
+    token is still what the user wrote."""
+    return re.sub(r'\b([A-Za-z])x(\d+)\b', '\\1\ufb01x\\2', text)
+
+
 class Prog:
     def __init__(self):
         self.files = {}            # relpath -> list of source lines (other modules)
@@ -116,7 +123,7 @@ def s_none(p):
 TNAME = {'inst': 'K0', 'int': 'int', 'str': 'str', 'list': 'list', 'dict': 'dict',
          'tuple': 'tuple'}
 MOVERS = {'star_chain', 'import_mod', 'from_import', 'from_import_as', 'import_as', 'pkg_relative',
-          'pkg_init_reexport', 'star_import', 'pkg_prefix_sibling', 'pkg_self_import'}
+          'pkg_init_reexport', 'star_import', 'pkg_prefix_sibling', 'pkg_self_import', 'namespace_pkg'}
 TYPED = set()      # carriers that need the type name in scope
 
 
@@ -888,6 +895,45 @@ def _(p, i):
     p.add(f'bump{i}({p.expr})')
     p.expr = f'peek{i}()'
     p.branching = True
+
+
+@carrier('magic_radd')
+def _(p, i):
+    # reflected operator: the left operand has no forward method for this right operand
+    p.add(f'class R{i}:\n    def __radd__(self, other):\n        return other')
+    p.expr = f'({p.expr} + R{i}())'
+    p.protocol_names.add('__radd__')
+
+
+@carrier('varargs_then_kw')
+def _(p, i):
+    # positional arguments collected by *items, directly followed by a keyword argument
+    p.add(f'def pick{i}(*items{i}, style{i}=0.5):\n    return style{i}')
+    p.expr = f'pick{i}(1, 2, style{i}={p.expr})'
+
+
+@carrier('varargs_forward_kw')
+def _(p, i):
+    p.add(f'def inner{i}(first{i}, second{i}=0.5, kept{i}=0.5):\n    return kept{i}')
+    p.add(f'def outer{i}(*args{i}, **kwargs{i}):\n    return inner{i}(*args{i}, **kwargs{i})')
+    p.expr = f'outer{i}(1, 2, kept{i}={p.expr})'
+
+
+@carrier('self_attr_closure')
+def _(p, i):
+    # the attribute is assigned through `self` inside a function nested in the method
+    p.add(f'class C{i}:\n    def __init__(self, q):\n        def setit{i}():\n'
+          f'            self.deep{i} = q\n        setit{i}()')
+    p.expr = f'C{i}({p.expr}).deep{i}'
+    p.protocol_names.add('__init__')
+
+
+@carrier('namespace_pkg')
+def _(p, i):
+    # a directory without __init__.py: an implicit namespace package
+    p.files[f'nsp{i}/inner{i}.py'] = list(p.main) + [(f'val{i} = {p.expr}', p.owner)]
+    p.main = [(f'import nsp{i}.inner{i}', p.owner)]
+    p.expr = f'nsp{i}.inner{i}.val{i}'
 
 
 CARRIER_MAP = dict(CARRIERS)
